@@ -188,6 +188,9 @@ def _generate(rng, tier):
             plan["a_kw"] = {"alias": rng.choice([None, "Aa"]), "deps": rng.random() < 0.7, "d0": rng.choice([None, 1, "2"])}
             plan["nargs"] = 0
             plan["args"] = []
+        elif not plan["kwonly"] and rng.random() < 0.3:
+            # a keyword-only parameter that depends on the first one, which is given by position
+            plan["d_on_a"] = rng.choice([1, "2"])
     # faults: any subset of reachable leaf positions, biased to "some but not all"
     fl = {}
     if positions:
@@ -330,15 +333,22 @@ def build(plan, strict=False):
 
             def f(a=utype.Param(None, **pk), *args, d0=None, **kwargs):
                 return (a, args, kwargs)
+        if plan.get("d_on_a") is not None:
+            def f(a=None, *args, d1=utype.Param(0, dependencies=["a"]), **kwargs):
+                return (a, args, kwargs)
         f.__annotations__ = {r: tdsl.build_type(ft[r]) for r in ("a", "args", "kwargs")}
         if akw:
             f.__annotations__["d0"] = int
+        if plan.get("d_on_a") is not None:
+            f.__annotations__["d1"] = int
         f.__module__ = "verif_c11"
         f.__qualname__ = f.__name__ = "f"
         g = utype.parse(f, options=opts, no_cache=True)
         if akw:
             extra = {} if akw["d0"] is None else {"d0": akw["d0"]}
             return lambda v: g(**{akw["alias"] or "a": v["a"]}, **extra, **v["kwargs"])
+        if plan.get("d_on_a") is not None:
+            return lambda v: g(v["a"], *v["args"], d1=plan["d_on_a"], **v["kwargs"])
         return lambda v: g(v["a"], *v["args"], **v["kwargs"])
     raise ValueError(kind)
 
@@ -606,6 +616,10 @@ def ref_plan(plan, value, pol, stats):
         akw = plan.get("a_kw")
         if akw and akw["deps"] and not a_excluded and akw["d0"] is None:
             stats["probe:dependency_missing_for_kept_field"] += 1
+            return FAIL
+        if plan.get("d_on_a") is not None and a_excluded:
+            # the parameter it depends on was left out: as if it had not been given
+            stats["probe:dependency_on_excluded_field"] += 1
             return FAIL
         return (a, tuple(args), kwargs)
 
